@@ -86,6 +86,13 @@ Section Statements.
     rebase_tree accept content_merge [b] [b'] (rebase_tree accept content_merge [b'] [b] [t]) = [t].
   Proof. exact (there_and_back_b accept content_merge). Qed.
 
+  (** The merge base of the third parent is taken from BOTH parents merged so far (single
+      merge bases [a], [b]): the result is p1 - a + p2 - b + p3. *)
+  Theorem C08_merge_base_from_all_parents : forall f p1 p2 p3 a b,
+    common_ancestors [p1] [p2] = [a] -> common_ancestors [p1; p2] [p3] = [b] ->
+    find_recursive_merge_commits common_ancestors root (S f) [p1; p2; p3] = Some [p1; a; p2; b; p3].
+  Proof. exact (frmc_three common_ancestors root). Qed.
+
   (** find_recursive_merge_commits terminates: if several greatest common ancestors always
       lie strictly below the commit they were computed for (a fact of the commit graph),
       fuel above the largest position involved is enough. *)
@@ -132,6 +139,7 @@ Qed.
 
 Theorem C08_okb_spec : forall c : case,
   okb c = true <->
+  merge_commits_P c /\
   exists ob nb r back,
     c_old_base c = Some ob /\ c_new_base c = Some nb /\ c_rebased c = Some r /\ c_back c = Some back /\
     let tab := c_tab c in
